@@ -397,7 +397,7 @@ impl<C: SaturateAssign> SaturateAssign for Alpha<C, C::Scalar> {
 impl<C, T> IsWithinBounds for Alpha<C, T>
 where
     C: IsWithinBounds,
-    T: Stimulus + PartialCmp + IsWithinBounds<Mask = C::Mask>,
+    T: Stimulus + PartialCmp + HasBoolMask<Mask = C::Mask>,
     C::Mask: BitAnd<Output = C::Mask>,
 {
     #[inline]
